@@ -166,7 +166,7 @@ c.ensures('exact-comparison', 'result[0] is True and result[1] is False and resu
 
 # ---- the keywords that can start a command (a definition followed by one of them defines a one-command routine)
 TK = 'bardolph/parser/token.py'
-c = contract(TK, 'starts_a_command', serves=['C06', 'C14', 'C16'], name='lemma:TokenTypes.is_executable: exactly the command keywords', src='''
+c = contract(TK, 'starts_a_command', serves=['C06', 'C14', 'C16', 'C15', 'C01', 'C03'], name='lemma:TokenTypes.is_executable: exactly the command keywords', src='''
 def starts_a_command():
     return [t.name for t in TokenTypes if t.is_executable()]
 ''')
